@@ -12,7 +12,12 @@ theorem recv_success_iff (evs : List SrvEv) :
     recvVerdict evs = PAM_SUCCESS ↔
       ∃ hi lo rest, stream evs = hi :: lo :: 79 :: 75 :: rest ∧
         2 ≤ min (be16val hi lo) 256 ∧ min (be16val hi lo) 256 ≤ rest.length + 2 := by
-  rw [recvVerdict_eq_spec]
+  have key : recvVerdict evs = PAM_SUCCESS ↔ verdictSpec (stream evs) = PAM_SUCCESS := by
+    rw [recvVerdict_eq_spec]
+    by_cases hz : zeroLenInterrupted evs = true
+    · simp [hz, zeroLenInterrupted_spec evs hz, PAM_AUTHINFO_UNAVAIL, PAM_AUTH_ERR, PAM_SUCCESS]
+    · simp [hz]
+  rw [key]
   constructor
   · intro h
     match hs : stream evs, h with
@@ -74,6 +79,8 @@ theorem success_only_on_ok (i : Input) (h : (authenticate i).1 = PAM_SUCCESS) :
 theorem verdict_range (evs : List SrvEv) :
     recvVerdict evs = PAM_SUCCESS ∨ recvVerdict evs = PAM_AUTH_ERR ∨ recvVerdict evs = PAM_AUTHINFO_UNAVAIL := by
   rw [recvVerdict_eq_spec]
+  split
+  · simp
   unfold verdictSpec
   split
   · simp only []; split
@@ -106,10 +113,10 @@ theorem every_failure_nonsuccess (i : Input)
       · exact h ((recv_success_iff i.server).mp hs)
 
 theorem silence_is_unavail (rest : List SrvEv) : recvVerdict (.timeout :: rest) = PAM_AUTHINFO_UNAVAIL := by
-  simp [recvVerdict, readN]
+  simp [recvVerdict, recvVerdictCore, zeroLenInterrupted, readN]
 /-- A signal that interrupts the wait for the reply makes the module give up (non-success). -/
 theorem interrupt_is_unavail (rest : List SrvEv) : recvVerdict (.intr :: rest) = PAM_AUTHINFO_UNAVAIL := by
-  simp [recvVerdict, readN]
+  simp [recvVerdict, recvVerdictCore, zeroLenInterrupted, readN]
 
 /-- … also after part of the reply has arrived: an interrupt or a close before the announced
     body is complete never yields success, whatever follows. (The model has no `errno`: in the
@@ -120,14 +127,23 @@ theorem incomplete_body_never_succeeds (hi lo : Byte) (part : Bytes) (e : SrvEv)
     recvVerdict (.data ([hi, lo] ++ part) :: e :: rest) ≠ PAM_SUCCESS := by
   have h2 : readN 2 (.data ([hi, lo] ++ part) :: e :: rest) [] = .full [hi, lo] (.data part :: e :: rest) := by
     simp [readN]
-  simp only [recvVerdict, h2]
   have hpos : ¬ min (be16val hi lo) 256 = 0 := by omega
-  simp only [hpos, if_false]
+  have hz : zeroLenInterrupted (.data ([hi, lo] ++ part) :: e :: rest) = false := by
+    unfold zeroLenInterrupted
+    rw [h2]
+    simp [hpos]
+  simp only [recvVerdict, hz, Bool.false_eq_true, if_false, recvVerdictCore, h2, hpos]
   have hnot : ¬ min (be16val hi lo) 256 ≤ part.length := by omega
   rcases he with rfl | rfl | rfl <;> simp [readN, hnot, PAM_SUCCESS, PAM_AUTHINFO_UNAVAIL]
 
 theorem early_close_is_unavail (rest : List SrvEv) : recvVerdict (.eof :: rest) = PAM_AUTHINFO_UNAVAIL := by
-  simp [recvVerdict, readN]
+  simp [recvVerdict, recvVerdictCore, zeroLenInterrupted, readN]
+
+/-- A signal that interrupts the wait after a ZERO-length announcement: the module gives up (it
+    still waits once for the empty body) — non-success either way. -/
+theorem zero_length_then_interrupt_is_unavail (rest : List SrvEv) :
+    recvVerdict (.data [0, 0] :: .intr :: rest) = PAM_AUTHINFO_UNAVAIL := by
+  simp [recvVerdict, zeroLenInterrupted, readN, nextEv, be16val]
 
 /-- The request written to the socket is the well-formed saslauthd request carrying user and
     password (C strings, each clipped to 256 bytes) with empty service and realm. -/
